@@ -294,10 +294,11 @@ def joined_path(path):
         if p1 == "" or p1.startswith("/"):
             return None
         return p1
+    # a list of items is the items joined by '/' (their own slashes are theirs: ["articles", "2020/"] is "articles/2020/"); the same rule then
     items = [str(x) for x in path]
-    if not items or any(it == "" or "/" in it for it in items):
+    if not items:
         return None
-    return "/".join(items)
+    return joined_path("/".join(items))
 
 
 def eval_built_url(cx, fn, inp, result, base, path, a, fragment, ext):
@@ -429,7 +430,7 @@ VALS = ["v", "", "x y", "a&b=c", "#", "?", "%41", "+", u"é", 0, 1, 14, 1.5, -2.
 KEYS_S = ["a", "a b", "a&b", "k=", "100%", u"é"]
 VALS_S = ["v", "", "x y", "a&b=c", "%41", 0, 1.5, True, False, None]
 
-F2_PATHS = [None, "test", "/test", "a/b", "a/b/", "", "/", ["a"], ["a", "b"], ["articles", 0, "x.html"], [], ["/a", "b"], ["", "a"], ["//a"], ("a", "b")]
+F2_PATHS = [None, "test", "/test", "a/b", "a/b/", "", "/", ["a"], ["a", "b"], ["articles", 0, "x.html"], [], ["/a", "b"], ["", "a"], ["//a"], ("a", "b"), ["articles", "2020/"], ["a/", "b"], ["a", "/b"], ["a", ""], ["a/b", "c"]]
 F2_ARGS = [None, {}, {"a": None}, {"a": False, "b": None}, {"a": 1}, {"a b": "x y", "n": True}, [], [["a", None]],
            [["id", 3], ["name", "J&J"], ["id", 2]], {"a": True}]
 F2_FRAGS = [None, "f", "#f", "", "a b", "x?y", u"é"]
